@@ -213,3 +213,17 @@ Theorem c02_exact_on_select_where_in_full : forall noise e s,
   wherein1c_syntactic s = true -> script_pairs e false [] [r_stmt noise s] = spec_pairs (e_cfg e) s.
 Proof. exact lemma_B_wherein1cu_colshape. Qed.
 Print Assumptions c02_exact_on_select_where_in_full.
+
+(** * Lemma B, step 5d (partial): a CTE (Tree/LemmaB5d*.v).  INSERT without column list / CTAS / VIEW over
+    WITH n AS (SELECT plain columns FROM distinct base tables) SELECT columns FROM n [AS a] - the CTE with item aliases, joins,
+    unresolved columns, dead-end columns, duplicate output names; outer items n.col, a.col or col; any trivia.  The holder is
+    composed in the reverse order of a derived table's (the body is delegated before the definition is extracted), and with an
+    alias the body reads a second SubQuery object equal to the definition's as a graph node.  K-C02-9 (star over a CTE) is
+    excluded by [colshape].  Not proved: INSERT column list, the CTE joined with base tables or referenced twice, stars. *)
+From SV Require Import Tree.LemmaB5d.
+
+Theorem c02_exact_on_one_cte_partial : forall noise e s,
+  noise_ok noise = true -> env_ok e = true -> one_cte_shape s = true ->
+  script_pairs e false [] [r_stmt noise s] = spec_pairs (e_cfg e) s.
+Proof. exact lemma_B_one_cte. Qed.
+Print Assumptions c02_exact_on_one_cte_partial.
